@@ -18,6 +18,7 @@ THEOREMS = [
     "Verif.C01.slice_complete",
     "Verif.C01.slice_compose",
     "Verif.C01.getitem_compose",
+    "Verif.C01.parse_canonical",
     "Verif.C01.getitem_spec",
     "Verif.C01.getitem_empty",
     "Verif.C01.resolve_rel_nonneg",
